@@ -55,7 +55,9 @@ def collect_T(pid, tier):
         for k, v in m.get("assumptions", {}).items():
             meta["assumption_scan"][k] = max(meta["assumption_scan"].get(k, 0), v)
         mod_problem = None
-        if not m.get("canary_failed_as_expected"):
+        if m.get("extra", {}).get("unattributed"):
+            mod_problem = "a refutation outside the functions under contract (prelude lemma / shim body): " + m["extra"]["unattributed"][0][:600]
+        elif not m.get("canary_failed_as_expected"):
             mod_problem = "vacuity canary did not fail: the assumptions of this file may be contradictory"
         for k, v in relevant.items():
             meta["functions_under_contract"].add(k)
